@@ -161,8 +161,14 @@ def history(rnd, tm, Wrench, rec, nmax):
     recs = []
     finds = []
     nops = rnd.randint(3, nmax)
+    # a quarter of the histories start by driving the platform into a mirrored pose (top plate below the bottom plate, legs in range,
+    # 'top above bottom' switch as it is by default) and then run the scipy FK from there: that is the only way into the
+    # 'FK resulted in inverted plate alignment -> repair' branch of FK
+    forced = ['mode0', 'ik_mirrored', 'fk_cur'] if rnd.random() < 0.25 else []
+    special = None
     for step in range(nops):
-        op = rnd.choice(OPS)
+        special = forced.pop(0) if forced else None
+        op = {'mode0': 'mode', 'ik_mirrored': 'ik_out', 'fk_cur': 'fk_in', None: None}[special] or rnd.choice(OPS)
         Tb0 = sp.getBottomT().gTM().copy(); Tt0 = sp.getTopT().gTM().copy()
         verdict = None; pure = False; enc = None; label = op; verdict_checked = True
         h = sp._nominal_height
@@ -172,10 +178,11 @@ def history(rnd, tm, Wrench, rec, nmax):
                     if op == 'ik_in':
                         rel = sph.rel_pose(rnd, h)
                     else:
-                        kind = rnd.choice(['far', 'tilt', 'below', 'short', 'twist'])
+                        kind = 'mirrored' if special == 'ik_mirrored' else rnd.choice(['far', 'tilt', 'below', 'short', 'twist'])
                         rel = {'far': [rnd.uniform(-1, 1) * h, rnd.uniform(-1, 1) * h, h * rnd.uniform(1.3, 3), 0, 0, 0],
                                'tilt': [0, 0, h, rnd.uniform(1.0, 2.5), rnd.uniform(-1, 1), 0],
                                'below': [0.1 * h, 0, -h * rnd.uniform(0.3, 1), 0, rnd.uniform(-0.3, 0.3), 0],
+                               'mirrored': [rnd.uniform(-0.1, 0.1) * h, rnd.uniform(-0.1, 0.1) * h, -h * rnd.uniform(0.85, 1.1), rnd.uniform(-0.1, 0.1), rnd.uniform(-0.1, 0.1), 0],
                                'short': [0, 0, h * rnd.uniform(0.1, 0.6), 0, 0, rnd.uniform(-1, 1)],
                                'twist': [0, 0, h, 0, 0, rnd.uniform(1.2, 3.0)]}[kind]
                         label = op + ':' + kind
@@ -183,7 +190,10 @@ def history(rnd, tm, Wrench, rec, nmax):
                     _, verdict = sp.IK(tm(T))
                     enc = [1.0] + t16(T)
                 elif op in ('fk_in', 'fk_out', 'fk_rev'):
-                    if op == 'fk_out':
+                    if special == 'fk_cur':
+                        L = np.asarray(sp.lengths, dtype=float).reshape(-1).copy() * (1 + rnd.uniform(-0.01, 0.01))
+                        label = op + ':from-mirrored'
+                    elif op == 'fk_out':
                         L = np.array([rnd.uniform(0.3, 1.6) * rnd.choice([sp.leg_ext_min, sp.leg_ext_max]) for _ in range(6)])
                     elif rnd.random() < 0.5:
                         L = np.array([rnd.uniform(sp.leg_ext_min * 1.02, sp.leg_ext_max * 0.98) for _ in range(6)])
@@ -236,7 +246,7 @@ def history(rnd, tm, Wrench, rec, nmax):
                     enc = [9.0] + [float(x) for x in sp.validation_settings]
                     label = op + str(sp.validation_settings)
                 elif op == 'mode':
-                    sp.fk_mode = rnd.choice([0, 1])
+                    sp.fk_mode = 0 if special == 'mode0' else rnd.choice([0, 1])
                     enc = [10.0, float(sp.fk_mode)]
         except Exception as e:
             finds.append(('raised:%s:%s' % (op, type(e).__name__), 'a call of the history raised', {'step': step, 'op': label}, repr(e)[:200]))
